@@ -36,7 +36,7 @@ PRIMES = [2, 3, 5, 7, 11, 13, 17]
 
 CONFIGS = ["numeric", "numeric_cstr", "named", "named_cstr", "arrhenius", "arrhenius_unique", "arrhenius_param", "ramped_temp",
            "create_named", "create_arrhenius", "create_named_cstr", "create_named_symbols", "reassign", "subst_vs_constants",
-           "shared_expr", "unique_zero", "unique_zero_incl", "create_param_expr"]
+           "shared_expr", "unique_zero", "unique_zero_incl", "create_param_expr", "registry_named"]
 
 
 def gen_systems(tier, seed):
@@ -189,6 +189,16 @@ def build_case(rxs, config):
             over["k1"] = Arrhenius([int(A[1]) + 1, int(E[1])])
         kfun = lambda P: [(int(A[i]) + 1) * sp.exp(-sp.Integer(int(E[i])) / P["temperature"]) if ("k%d" % i) in over else P["k%d" % i] for i in range(nr)]  # noqa
         expected_params = {"temperature"} | ({"k1"} if nr > 1 else set()) | {"k%d" % i for i in range(2, nr)}
+    elif config == "registry_named":
+        # built WITH a unit registry (idealised: base units are free positive reals, as in C10): unique-key expressions and plain named
+        # parameters mixed; all constants stay free symbols, so no number needs a unit conversion
+        from checks.C10 import sym_registry
+
+        params = [MassAction([int(A[0])], unique_keys=("k0",))] + ["k%d" % i for i in range(1, nr)]
+        kfun = lambda P: [P["k%d" % i] for i in range(nr)]  # noqa
+        expected_params = {"k%d" % i for i in range(nr)}
+        kw["include_params"] = False
+        kw["unit_registry"] = sym_registry()[0]
     elif config == "arrhenius_param":
         params = [ArrheniusParam(int(a), int(e)) for a, e in zip(A, E)]
         from chempy.kinetics.arrhenius import _get_R
